@@ -25,7 +25,7 @@ Qed.
 Lemma parse_via_param_no_panic s : parse_via_param s <> Panic.
 Proof.
   unfold parse_via_param. destruct (split_byte ";"%char s) as [|t0 ps]; [discriminate|].
-  destruct (fields t0) as [|proto [|sentby [|x y]]]; try discriminate.
+  destruct (fields_go t0) as [|proto [|sentby [|x y]]]; try discriminate.
   destruct (split_byte "/"%char proto) as [|n [|v [|t [|z w]]]]; try discriminate.
   destruct (split_byte ":"%char sentby) as [|h [|p [|z w]]]; try discriminate.
   destruct (atoi p); discriminate.
@@ -117,7 +117,7 @@ Proof.
 Qed.
 Lemma parse_cseq_no_panic s : parse_cseq s <> Panic.
 Proof.
-  unfold parse_cseq. destruct (fields s) as [|n [|m [|x y]]]; try discriminate.
+  unfold parse_cseq. destruct (fields_go s) as [|n [|m [|x y]]]; try discriminate.
   destruct (atoi n); discriminate.
 Qed.
 
